@@ -7,6 +7,8 @@ import (
 	"testing"
 	"time"
 
+	"sync/atomic"
+
 	"github.com/fogfish/golem/pipe/v2"
 	"github.com/fogfish/golem/pipe/v2/fork"
 )
@@ -79,8 +81,17 @@ func init() {
 		var got, errs []int
 		lateErrs := 0
 		done := make(chan struct{})
+		stderr := c.End == "stderr"
+		if stderr {
+			// the library's own reader of error channels takes the errors (and logs them)
+			out = api.StdErr(out, exx)
+			exx = nil
+		}
 		go func() {
 			defer close(done)
+			if exx == nil {
+				return
+			}
 			for e := range exx {
 				if id := toInt(e); id >= 0 {
 					errs = append(errs, id)
@@ -139,10 +150,103 @@ func init() {
 		if !slices.Equal(got, wg) {
 			return what + ": values " + diffAt(got, wg)
 		}
-		if !slices.Equal(errs, we) {
+		if !stderr && !slices.Equal(errs, we) {
 			return what + ": errors (one per failing element) " + diffAt(errs, we)
 		}
 		return ""
+	}
+
+	// an arrow may keep what it bound to the context it was given: a helper stage started by its first call, a resource
+	// released by context.AfterFunc. The pipeline's context is not cancelled, so all of that keeps working from one
+	// element to the next and the stage delivers the concatenation of the images.
+	progs["fmap-arrow-keeps-context"] = func(c *caseT) string {
+		ctx, cancel := context.WithCancel(context.Background())
+		defer cancel()
+		xs := seqInts(1, c.N)
+		var released atomic.Bool
+		var helperIn chan int
+		var helperOut <-chan int
+		first := true
+		arrow := func(actx context.Context, x int, out chan<- int) error {
+			if first {
+				first = false
+				context.AfterFunc(actx, func() { released.Store(true) })
+				if c.Mode == "helper-stage" {
+					helperIn = make(chan int)
+					helperOut, _ = pipe.Map(actx, helperIn, pipe.Pure(func(v int) int { return v * v }))
+				}
+			}
+			y := x * x
+			if released.Load() {
+				y = -1 // the resource bound to the first call's context was released
+			}
+			if helperIn != nil {
+				select {
+				case helperIn <- x:
+				case <-ctx.Done():
+					return nil
+				}
+				v, ok := <-helperOut
+				if !ok {
+					v = -2 // the helper stage has shut down
+				}
+				if y >= 0 {
+					y = v
+				}
+			}
+			select {
+			case out <- y:
+			case <-actx.Done():
+			}
+			return nil
+		}
+		in := make(chan int, c.Cap)
+		go func() {
+			defer close(in)
+			for _, x := range xs {
+				in <- x
+			}
+		}()
+		var out <-chan int
+		var exx <-chan error
+		switch c.Arg {
+		case "TryF":
+			out, exx = pipe.FMap(ctx, in, pipe.TryF(arrow))
+		case "fork.LiftF":
+			out, exx = fork.FMap(ctx, 1, in, fork.LiftF(arrow))
+		default:
+			out, exx = pipe.FMap(ctx, in, pipe.LiftF(arrow))
+		}
+		go func() {
+			for range exx {
+			}
+		}()
+		var got, want []int
+		for v := range out {
+			got = append(got, v)
+		}
+		if helperIn != nil {
+			close(helperIn) // the helper stage ends with its input
+		}
+		for _, x := range xs {
+			want = append(want, x*x)
+		}
+		if !slices.Equal(got, want) {
+			return fmt.Sprintf("FMap (%s, %s), the arrow keeps using what it bound to the context of its first call (-1: released by AfterFunc, -2: helper stage shut down) while the pipeline's context is live: %s", c.Arg, c.Mode, diffAt(got, want))
+		}
+		return ""
+	}
+}
+
+func progsArrowContext(t *testing.T, prop string, kinds []string) {
+	for _, k := range kinds {
+		for _, m := range []string{"after-func", "helper-stage"} {
+			for _, n := range []int{1, 2, 3, 40} {
+				for _, cp := range []int{0, 2} {
+					runProg(t, prop, &caseT{Stage: "prog/fmap-arrow-keeps-context", N: n, Cap: cp, Arg: k, Mode: m})
+				}
+			}
+		}
 	}
 }
 
@@ -161,6 +265,9 @@ func progsSlowErrors(t *testing.T, prop string, modes []string) {
 							continue
 						}
 						runProg(t, prop, &caseT{Stage: "prog/try-slow-error-reader", Mode: m, N: 14, Cap: cp, Par: par, Arg: pat, FSeed: uint64(cp) + 3, Tick: int64(pv), Delay: int(pe / time.Millisecond)})
+						if pe == 0 {
+							runProg(t, prop, &caseT{Stage: "prog/try-slow-error-reader", Mode: m, N: 14, Cap: cp, Par: par, Arg: pat, FSeed: uint64(cp) + 3, Tick: int64(pv), End: "stderr", Comment: map[bool]string{true: "fork"}[par > 0]})
+						}
 					}
 				}
 			}
